@@ -30,6 +30,13 @@ def handleName : List String → Option String
   | ["n.towire", a] => do
     let n ← parseName a
     some ("ok " ++ toHexP (toWire n))
+  | ["n.towireo", a, o, c] => do
+    let n ← parseName a
+    let o ← parseOptName o
+    let c ← parseBool c
+    some (match toWireO n o c with
+      | .ok b => "ok " ++ toHexP b
+      | .error e => "err " ++ e.toString)
   | ["n.fromwire", w, cur] => do
     let w ← ofHex w
     let cur ← cur.toNat?
